@@ -70,6 +70,8 @@ def scenarios():
         ("branch-delete", br, c_branch_delete(b"dev")),
         ("switch", br, c_switch(b"dev")),
         ("switch-c", two, c_switch_create(b"feat")),
+        ("switch-long-name", br + [c_branch(b"release-candidate-2026")], c_switch(b"release-candidate-2026")),
+        ("config-long-value", [c_init(), c_config(b"user.name", b"N")], c_config(b"user.name", b"A considerably longer name than before")),
         ("reset-soft", two, c_reset("soft", b"HEAD@{1}")),
         ("reset-mixed", two, c_reset("mixed", b"HEAD@{1}")),
         ("reset-hard", two + [Edit("rmtree", b"d")], c_reset("hard", b"HEAD@{1}")),
@@ -362,6 +364,32 @@ def run_scenario(shim, sbase, name, setup, target, mode, stats, rng, model_ok, t
                 for p in probs[:2]:
                     viol.append({"seed": None, "steps": setup + [target], "i": len(setup), "shrinkable": False,
                                  "msg": "%s: %s" % (label, p), "step_name": target.name, "extra": extra})
+                # ---- life goes on after the crash: the interrupted command again, then a few short writing
+                # commands (a leftover of the killed process — a temporary file, say — must not leak into them)
+                if not probs and name != "init":
+                    later = []
+                    s_now = Snap(sb)
+                    follow = [target.argv]
+                    if s_now.refs:
+                        follow.append(["switch", sorted(s_now.refs, key=len)[0]])
+                    follow += [["config", "user.name", "q"], ["config", "user.email", "q@b.cc"], ["add", "."],
+                               ["commit", "-m", "after the crash"]]
+                    for argv in follow:
+                        rr = sb.run(argv)
+                        if rr.cls in ("panic", "timeout"):
+                            later.append("%r %s: %r" % (argv[0], rr.cls, rr.err[:120]))
+                    s4 = Snap(sb)
+                    later += reach_fsck(s4)
+                    if s4.refs and s4.head_branch not in s4.refs:
+                        later.append("HEAD %r names no existing branch" % (s4.head_raw,))
+                    for argv in (["status"], ["log"], ["ls-files"]):
+                        rr = sb.run(argv)
+                        if rr.cls != "ok" and not (argv[0] == "log" and not s4.refs):
+                            later.append("%s fails: %r" % (argv[0], rr.err[:120]))
+                    for p in later[:2]:
+                        viol.append({"seed": None, "steps": setup + [target], "i": len(setup), "shrinkable": False,
+                                     "msg": "%s, then the command again and switch/config/add/commit: %s" % (label, p),
+                                     "step_name": target.name, "extra": extra})
             else:
                 s2 = Snap(sb)
                 probs = []
